@@ -12,6 +12,14 @@ use robopoker::clustering::abstraction::Abstraction;
 use robopoker::clustering::histogram::Histogram;
 use robopoker::clustering::lookup::Lookup;
 use robopoker::clustering::transitions::Decomp;
+use robopoker::cards::hand::Hand;
+use robopoker::cards::hole::Hole;
+use robopoker::cards::card::Card;
+use robopoker::cards::observation::Observation;
+use robopoker::gameplay::action::Action;
+use robopoker::gameplay::game::Game;
+use robopoker::mccfr::blueprint::Blueprint;
+use robopoker::mccfr::encoder::Encoder;
 use robopoker::mccfr::bucket::Bucket;
 use robopoker::mccfr::edge::Edge;
 use robopoker::save::upload::Table;
@@ -293,6 +301,158 @@ fn decomp_case(c: &mut Ctx, map: BTreeMap<Abstraction, Histogram>) {
     run_cuts(c, "transitions", mass, &orig, &name, &full, 34, &mut load, river, &mut decoy);
 }
 
+// ------------------------------------------------------------------ composite loaders
+
+/// a game whose acting player sees exactly `obs` (pocket + board), reached by passive play and
+/// chosen deals; used only to ask an `Encoder` for the abstraction of one isomorphism
+fn game_at(obs: &Observation) -> Option<Game> {
+    let pocket = u64::from(*obs.pocket());
+    let public = u64::from(*obs.public());
+    let full = u64::from(Hand::from(Hand::mask()));
+    let free = full & !(pocket | public);
+    let a = free & free.wrapping_neg();
+    let b = (free & !a) & (free & !a).wrapping_neg();
+    let other = a | b;
+    let board: Vec<Card> = Vec::<Card>::from(Hand::from(public));
+    let mut deals: Vec<Hand> = vec![];
+    if board.len() >= 3 {
+        deals.push(Hand::from(board[0..3].to_vec()));
+    }
+    for c in board.iter().skip(3) {
+        deals.push(Hand::from(vec![*c]));
+    }
+    for order in [[pocket, other], [other, pocket]] {
+        let built = catch(|| {
+            let mut g = Game::root().verif_with_holes(&[Hole::from(Hand::from(order[0])), Hole::from(Hand::from(order[1]))]);
+            for d in &deals {
+                for _ in 0..8 {
+                    let legal = g.legal();
+                    if legal.iter().any(|x| matches!(x, Action::Draw(_))) {
+                        break;
+                    }
+                    let act = legal.iter().find(|x| matches!(x, Action::Call(_))).or(legal.iter().find(|x| matches!(x, Action::Check))).copied()?;
+                    g = g.apply(act);
+                }
+                g = g.apply(Action::Draw(*d));
+            }
+            Some(g)
+        });
+        if let Some(Some(g)) = built {
+            if catch(|| g.sweat()) == Some(*obs) {
+                return Some(g);
+            }
+        }
+    }
+    None
+}
+
+/// does the encoder hold exactly the expected abstraction for every probe?
+fn encoder_complete(enc: &Encoder, probes: &[(Game, Abstraction)]) -> bool {
+    probes.iter().all(|(g, a)| catch(std::panic::AssertUnwindSafe(|| enc.abstraction(g))) == Some(*a))
+}
+
+/// one directory with a blueprint file and the four street lookups; each file in turn is cut at many
+/// points and the COMPOSITE loaders (`Encoder::load` = all four lookups, `Blueprint::load` = profile +
+/// encoder) are run: they must fail, or deliver everything
+fn composite_case(c: &mut Ctx, nrows: usize) {
+    let prows = any_profile_rows(&mut c.rng, nrows);
+    let profile = build_profile(&prows);
+    let ptyped = intended_profile(&prows);
+    let mut lookups: Vec<BTreeMap<Isomorphism, Abstraction>> = vec![];
+    let mut probes: Vec<(Game, Abstraction)> = vec![];
+    for s in STREETS {
+        let mut m = BTreeMap::new();
+        let mut tries = 0;
+        while m.len() < nrows.max(1) && tries < 1000 {
+            tries += 1;
+            let iso = any_isomorphism(&mut c.rng, s);
+            let abs = any_abstraction(&mut c.rng, Some(s));
+            if let Some(g) = game_at(&iso.0) {
+                // the stand-in answer of an EMPTY encoder must not be mistaken for the stored one
+                if Encoder::verif_standin(&g) != abs && !m.contains_key(&iso) {
+                    m.insert(iso, abs);
+                    probes.push((g, abs));
+                }
+            }
+        }
+        lookups.push(m);
+    }
+    c.scr.clean();
+    profile.save();
+    for m in &lookups {
+        Lookup::from(m.clone()).save();
+    }
+    let files = c.scr.files();
+    assert!(files.len() == 5, "blueprint + four lookups: {:?}", files.iter().map(|f| &f.0).collect::<Vec<_>>());
+    let get = |n: &str| files.iter().find(|f| f.0 == n).map(|f| f.1.clone()).expect("file");
+    let names: Vec<String> = std::iter::once("blueprint".to_string()).chain(STREETS.iter().map(|s| format!("isomorphism.{s}"))).collect();
+    let fulls: Vec<Vec<u8>> = names.iter().map(|n| get(n)).collect();
+    let body = format!("{} {} {}", ptyped.len(), flat(&typed_rows(&ptyped)), lookups.iter().map(|m| format!("{} {}", m.len(), flat(&lookup_rows(m)))).collect::<Vec<_>>().join(" "));
+    let load_enc = |probes: &[(Game, Abstraction)]| -> &'static str {
+        match catch(|| <Encoder as Table>::load(Street::Rive)) {
+            None => "fail",
+            Some(e) => if encoder_complete(&e, probes) { "ok" } else { "short" },
+        }
+    };
+    // complete directory first
+    c.run.spec_checked += 1;
+    if load_enc(&probes) != "ok" {
+        c.run.fail("complete-directory-does-not-load", &format!("Encoder::load, {} lookup rows", probes.len()), "every stored abstraction", load_enc(&probes));
+    }
+    for target in 0..=4usize {
+        let full = &fulls[target];
+        let ks: Vec<usize> = if full.len() <= 420 { (0..=full.len()).collect() } else { cuts(c, full.len(), if target == 0 { 66 } else { 26 }).1 };
+        let mut enc_ans = vec![];
+        let mut bp_ans = vec![];
+        for &k in &ks {
+            c.scr.write(&names[target], &full[..k]);
+            let what = format!("{} of {} bytes cut to {k} bytes (other four files complete)", names[target], full.len());
+            // Encoder::load
+            let ev = load_enc(&probes);
+            if target > 0 {
+                c.run.evaluations += 1;
+                c.run.spec_checked += 1;
+                c.run.count(&format!("Encoder::load, one street file cut -> {ev}"));
+                c.run.distinct(&("enc", &body, target, k));
+                if k < full.len() && ev == "short" {
+                    c.run.fail("composite-load-accepts-truncated-street", &format!("Encoder::load with {what}"), "load fails, or holds every row of every street", "loaded with rows missing");
+                }
+                if k == full.len() && ev != "ok" {
+                    c.run.fail("complete-directory-does-not-load", &format!("Encoder::load with {what}"), "ok", ev);
+                }
+                enc_ans.push(ev);
+            }
+            // Blueprint::load = Profile::load + Encoder::load (the encoder inside cannot be read back:
+            // its part of the verdict is what Encoder::load just delivered on the same directory)
+            c.run.evaluations += 1;
+            c.run.spec_checked += 1;
+            let bv = match catch(|| <Blueprint as Table>::load(Street::Rive)) {
+                None => "fail",
+                Some(bp) => {
+                    let p = bp.verif_profile();
+                    let same = profile_typed(&p.read().unwrap()) == ptyped;
+                    if same && ev == "ok" { "ok" } else { "short" }
+                }
+            };
+            c.run.count(&format!("Blueprint::load, {} cut -> {bv}", if target == 0 { "blueprint file" } else { "one street file" }));
+            c.run.distinct(&("bp", &body, target, k));
+            if k < full.len() && bv == "short" {
+                c.run.fail("composite-load-accepts-truncated-file", &format!("Blueprint::load with {what}"), "load fails, or holds the complete profile and every street", "loaded with content missing");
+            }
+            if k == full.len() && bv != "ok" {
+                c.run.fail("complete-directory-does-not-load", &format!("Blueprint::load with {what}"), "ok", bv);
+            }
+            bp_ans.push(bv);
+        }
+        c.scr.write(&names[target], full);
+        let kstr = format!("{} {}", ks.len(), ks.iter().map(|k| k.to_string()).collect::<Vec<_>>().join(" "));
+        if target > 0 {
+            c.run.line(&format!("comp enc {target} {body} {kstr}"), &enc_ans.join(" "));
+        }
+        c.run.line(&format!("comp bp {target} {body} {kstr}"), &bp_ans.join(" "));
+    }
+}
+
 fn any_profile_rows(rng: &mut Rng, n: usize) -> Vec<(Bucket, Edge, u32, u32)> {
     let mut rows = vec![];
     while rows.len() < n {
@@ -329,7 +489,7 @@ fn main() {
     let nsmall = if deep { 60 } else { 30 };
     let big = if deep { 3000 } else { 1100 };
     c.run.rule = format!(
-        "files written by the real save() of all four table kinds (0,1,2,3 rows, {nsmall} random tables of up to 5 rows, one of ~60 and one of ~{big} rows per kind, a lookup and a transitions table of ~4200 rows (more than 1024 / 4096 rows); transitions for preflop/flop/turn and the empty river file): for files up to 420 bytes EVERY prefix length 0..len, otherwise bytes 0..40, every row boundary, sampled offsets inside rows (first/second/last byte and random), the last 80 bytes, cuts around row-block multiples (256·j and 2^i rows) and I/O-buffer multiples (8 KiB, 64 KiB, 1 MiB ± 2 bytes), and the complete file — all judged by the oracle, a sample of at most ~500 per large file also sent to the model; before the cuts (every cut for small files, every 16th otherwise) the same thread loads a different, LONGER complete file of the same kind, alternately under the same name and under another street's name, so that state left behind by an earlier load is in place; each prefix replaces the file and is loaded by the real load() under catch_unwind; a case = one (file, cut), non-trivial when the table has at least one row; distinct by (table content, cut)");
+        "files written by the real save() of all four table kinds (0,1,2,3 rows, {nsmall} random tables of up to 5 rows, one of ~60 and one of ~{big} rows per kind, a lookup and a transitions table of ~4200 rows (more than 1024 / 4096 rows); transitions for preflop/flop/turn and the empty river file): for files up to 420 bytes EVERY prefix length 0..len, otherwise bytes 0..40, every row boundary, sampled offsets inside rows (first/second/last byte and random), the last 80 bytes, cuts around row-block multiples (256·j and 2^i rows) and I/O-buffer multiples (8 KiB, 64 KiB, 1 MiB ± 2 bytes), and the complete file — all judged by the oracle, a sample of at most ~500 per large file also sent to the model; before the cuts (every cut for small files, every 16th otherwise) the same thread loads a different, LONGER complete file of the same kind, alternately under the same name and under another street's name, so that state left behind by an earlier load is in place; plus directories holding a blueprint file and the four street lookups where each of the five files in turn is cut at every byte and the COMPOSITE loaders Encoder::load (all four lookups; its content is probed through Encoder::abstraction on games built for every stored isomorphism) and Blueprint::load (profile + encoder) are run; each prefix replaces the file and is loaded by the real load() under catch_unwind; a case = one (file, cut), non-trivial when the table has at least one row; distinct by (table content, cut)");
     c.run.exhaustive = false;
 
     for n in [0usize, 1, 2, 3] {
@@ -374,6 +534,10 @@ fn main() {
         let n = 1 + c.rng.below(5) as usize;
         let m = any_decomp(&mut c.rng, s, n, 4096);
         decomp_case(&mut c, m);
+    }
+    // composite loaders over directories with one truncated file
+    for n in if deep { vec![1usize, 2, 3, 5, 8, 12, 3, 4] } else { vec![1usize, 3, 6] } {
+        composite_case(&mut c, n);
     }
     // larger tables: more than 1024 / 4096 rows, every row boundary judged by the oracle
     for n in if deep { vec![60usize, big, 4200] } else { vec![60usize, big] } {
